@@ -2,7 +2,7 @@
 From Coq Require Import List NArith ZArith Bool.
 From GoPdf.Base Require Import Bytes Res.
 From GoPdf.Gen Require Import Gen_C06 Gen_C06ccitt2d.
-From GoPdf.C06 Require Import Machine MachineProofs AHx A85 RunLen LZW Predict Chain FilterParams Conform CCITT CCITTTables CCITTProofs CCITT2D CCITT2DProofs
+From GoPdf.C06 Require Import Machine MachineProofs AHx A85 RunLen LZW Predict Chain FilterParams Conform CCITT CCITTTables CCITTProofs CCITT2D CCITTParams CCITT2DProofs
   AHxProofs A85Proofs RunLenProofs LZWCodeProofs LZWBitProofs PredictProofs ChainProofs FilterParamsProofs.
 Import ListNotations.
 
@@ -187,6 +187,16 @@ Theorem g4_full_run_rt : forall white cols n tail r rb,
   exists r' rb', decode_full_run cols white r = (n, r') /\ good r' rb' /\ real r' rb' = tail.
 Proof. exact decode_full_run_rt. Qed.
 Print Assumptions g4_full_run_rt.
+
+(* the row limit FilterCCITTFax.toParams gives to writer and reader alike (geometric bound from
+   MaxImageHeight / MaxImagePixels, lowered by /Rows) is never "no limit"; what the K = 0 encoder accepts is
+   decoded exactly, and it accepts at most that many rows *)
+Theorem ccitt_rows_rt : forall c rows e,
+  validate_ccitt c = true -> (0 <= c_columns c)%Z -> Forall (row_ok (g3p_of c)) rows ->
+  g3_encode (g3p_of c) rows = Ok e ->
+  g3_dec (g3p_of c) e = Ok (concat rows) /\ (length rows <= Z.to_nat (ccitt_max_rows (c_columns c) (c_rows c)))%nat.
+Proof. exact ccitt_filter_rt. Qed.
+Print Assumptions ccitt_rows_rt.
 
 (* the reader's 128-entry mode table (mainTable) is T.6 table 1: pass 0001, horizontal 001, vertical V0 1,
    VR1..3 011 000011 0000011, VL1..3 010 000010 0000010 (offsets stored as 16-bit two's complement), extension
